@@ -133,9 +133,11 @@ class C18(Prop):
                   "tails, zero padding) and non-canonical IPv4 spellings are covered by concrete Coq examples and by the "
                   "correspondence runs against the faithful parser models, not by a general theorem. Server scenarios use IPv4 "
                   "loopback peers only; IPv4-mapped IPv6 peers on dual-stack listeners ([::]) are outside the explored space "
-                  "(the model says such a peer is family V6 and matches no IPv4 network). peer_addr() failing (-> not allowed) and "
-                  "listener.accept() errors are modelled (AcceptErr) but not provoked. HEAD requests and absolute-form targets "
-                  "are not generated.")
+                  "(the model says such a peer is family V6 and matches no IPv4 network). The peer_addr() error arm of check_tcp_allowed "
+                  "(-> not allowed) is not in the model; it is reached on the real server by the RST fault steps when an allowlist "
+                  "is configured (a connection reset before accept has no peer address), where its only observable effect is that "
+                  "later clients are still served. listener.accept() errors are modelled (AcceptErr) but not provoked. HEAD "
+                  "requests and absolute-form targets are not generated.")
     assumptions = ["all of 127.0.0.0/8 is local on the machine running the check (Linux loopback)",
                    "the rendering does not change between the two handle.render() calls around a step (checked by the driver)"]
     trusted_extra = ["ipnet 2.11 and core::net address parsers, hyper 1.6 / tokio 1.44 (exercised; the parsers and ipnet's masks are modelled)",
